@@ -199,6 +199,35 @@ func genC16(r *rand.Rand, tier string, st *Stats) []Case {
 			}
 		}
 	}
+	// 1b. every ordered PAIR of bytes in the raw spelling (where both can be written raw), and raw next to the
+	// named / hex spelling: anything the reader does to a character depending on its neighbour (CR LF folding, a
+	// character swallowed after another, look-ahead that is not undone) shows here although every single byte is fine
+	for a := 1; a < 0x80; a++ {
+		for b := 1; b < 0x80; b++ {
+			q := byte('\'')
+			if a == '\'' || b == '\'' {
+				q = '"'
+			}
+			spa, spb := spellingsOf(byte(a), q), spellingsOf(byte(b), q)
+			ra, oka := spa["raw"]
+			rb, okb := spb["raw"]
+			if !oka || !okb {
+				continue
+			}
+			val := string([]byte{byte(a), byte(b)})
+			lit := string([]byte{q}) + ra + rb + string([]byte{q})
+			cases = append(cases, litCase(fmt.Sprintf("pr%02x%02x", a, b), lit, "z"+val+val+"z", val, "pair-raw"))
+			st.Counts["pair-raw"]++
+			// the control characters and the quote/backslash neighbours also with one side escaped
+			if a < 0x20 || b < 0x20 || a == '\\' || b == '\\' {
+				lit2 := string([]byte{q}) + ra + spb["hexlower"] + string([]byte{q})
+				lit3 := string([]byte{q}) + spa["hexlower"] + rb + string([]byte{q})
+				cases = append(cases, litCase(fmt.Sprintf("pm%02x%02x", a, b), lit2, val, val, "pair-mixed"))
+				cases = append(cases, litCase(fmt.Sprintf("pn%02x%02x", a, b), lit3, val, val, "pair-mixed"))
+				st.Counts["pair-mixed"] += 2
+			}
+		}
+	}
 	// 2. \x followed by 0, 1, 2 hex digits and arbitrary characters (all tails up to length 3 over a small alphabet)
 	alpha := []string{"a", "F", "4", "0", "Z", "g", "x", " ", "\\\\", "\\n", "\\x41", "\\x"}
 	var tails func(n int) []string
